@@ -48,7 +48,9 @@ LEVEL_TEXT = (
     "exactly the configured value: None is None, 0 is 0), C16_never_before_bound, C16_idle_drop_exact(_event), "
     "C16_idle_release_bound (every value 0 <= i, zero included) and C16_idle_release_due, C16_next_line_rearms, "
     "C16_active_never_idle_dropped, C16_idle_drop_during_transfer, C16_data_wait_425(_stall), C16_data_connect_in_time, "
-    "C16_at_most_one_425_per_transfer, C16_data_stall_bound, C16_data_stall_release_bound, C16_data_progress_rearms, "
+    "C16_at_most_one_425_per_transfer, C16_data_stall_bound, C16_data_stall_release_bound, C16_data_progress_rearms and "
+    "C16_data_pause_not_counted (a data read/write is timed from the instant it starts, after the stream's throttle wait, however "
+    "long that wait is; control-channel counterpart: C16_next_line_rearms), "
     "C16_ctrl_write_stall_bound, C16_stall_ends_at_deadline, C16_dropped_at_deadline, C16_unset_* (None, and only None, means "
     "unbounded) and zero-is-zero-seconds everywhere: C16_idle_zero_drops_at_once / C16_idle_zero_release (control reads), "
     "C16_zero_socket_ends_at_greeting / C16_zero_socket_ctrl_immediate (control writes), C16_zero_socket_data_immediate (data "
@@ -64,8 +66,10 @@ LEVEL_NOTE = (
     "64 KiB flow-control window). Modelled, not verified: asyncio.wait_for/timeout semantics (deadline = start + T, "
     "T <= 0 immediate, the awaited coroutine never starts; sampled by a dedicated stream), task scheduling order at equal "
     "instants (ties are excluded from the corpus or tolerated, see docs/notes/C16.md), file back-end taking zero virtual time, "
-    "real-time promptness. No known finding: F16 (0 treated as 'unset' by StreamIO.__init__) is repaired; its recorded replay "
-    "is an ordinary corpus case."
+    "real-time promptness; throttle waits are fed to the model as observed (arming instants of the control readline, start "
+    "instants of the timed data reads), not predicted (C15 is about their length). F16 (0 treated as 'unset' by "
+    "StreamIO.__init__) is repaired, its recorded replay is an ordinary corpus case. Known finding F20: a Throttle.wait helper "
+    "task outlives a session released during a throttle pause (clean-up clause)."
 )
 TRUSTED = [
     "asyncio.wait_for(aw, T) raises TimeoutError at exactly start + T on the loop clock (T <= 0: at once, T None: never); "
@@ -971,8 +975,10 @@ def throttle_eps(obs, throttle=None):
     return eps
 
 
-def throttled_cases():
+def throttled_cases(thorough=False):
     for tag, (thr, names, cfgs) in THROTTLES.items():
+        if thorough:  # every combination of the values that are shorter / longer than the group's pauses
+            cfgs = cfgs + [c for c in itertools.product((None, F(3, 4), 2, 5), (None, F(3, 4), 2, 5), (None, 2)) if c not in cfgs]
         cases = [(name, k, cfg) for name in names for cfg in cfgs for k in range(1, len(SCRIPTS[name]) + 1)]
         yield tag, thr, cases
 
@@ -1012,10 +1018,13 @@ def correspondence(ctx, thorough=None):
                 for k in range(3, len(sc) + 1):
                     cases.append(("random", k, cfg, sc))
         ctx.count("random_scripts", 160)
+    # idle_timeout = 0 together with socket_timeout = 0: two deadlines at the very start of the session, whose order
+    # is a race in asyncio; run those last, so that the first failing input reported is preferably a deterministic one
+    cases.sort(key=lambda c: c[2][0] == 0 and c[2][1] == 0)
     ctx.count("matrix_cases", len(cases))
     xs += run_matrix(ctx, cases)
     # throttled configurations: speed limit x timeout, throttle pauses longer than the timeouts, peers that never stall
-    for tag, thr, tcases in throttled_cases():
+    for tag, thr, tcases in throttled_cases(thorough):
         ctx.count(f"throttled_cases:{tag}", len(tcases))
         xs += run_matrix(ctx, tcases, throttle=thr, stream="throttled-" + tag)
     if not have_model:
@@ -1032,10 +1041,11 @@ def correspondence(ctx, thorough=None):
         "cannot exhibit: the theorems and the agreement with the real server are about virtual time"
     )
     ctx.extra["epsilon"] = (
-        "0 in virtual time without throttle (exact equality is checked). Throttled configuration (read_speed_limit=64 B/s): "
-        "the throttle sleep precedes the timed read and is not under the timeout, so a release may come up to "
-        "(bytes read so far)/limit later than the bound; the model is given the observed arming instants and must still "
-        "predict the release exactly."
+        "0 in virtual time without throttle (exact equality is checked). Throttled configurations (read 64 B/s, read 4 B/s, "
+        "write 16 B/s): the throttle sleep precedes the timed read/write and is not under the timeout, so a release may come up to "
+        "(bytes read so far)/read limit + (bytes written so far)/write limit later than the bound and never earlier; the model is "
+        "given the observed start instants of the timed reads and must still predict the release exactly (write-throttled "
+        "transfers: property oracle only)."
     )
 
 
